@@ -5,6 +5,7 @@ P: contract of the real Logix.reply_elements (all siz >= 1, all lengths, indices
    induction; symmetric for writes) + the completed/status fragment of Logix.request.
 B: fragment walks on the real Logix.request with scaled-down budgets (bounded, never counted).
 """
+from .util import distinct_keys
 import itertools
 import random
 
@@ -216,7 +217,7 @@ def bounded(tier, seed):
                     got = 'refused (%s)' % type(e).__name__
                 if got != want and len(violations) < 8:
                     violations.append(dict(key='client tile %r' % txt, observed=repr(got)[:300], required=repr(want)[:300]))
-    return dict(evaluations=stats['evaluations'], distinct_nontrivial=len(distinct),
+    return dict(evaluations=stats['evaluations'], distinct_nontrivial=len(distinct), distinct_keys=distinct_keys(distinct),
                 rule='every (type in SINT/INT/DINT/LINT, tag length, MAX_BYTES budget, start index, element count) in the '
                      'listed ranges: the client loop (offset += bytes received) on the real Logix.request; distinct = distinct tuples',
                 exhaustive=True, samples=samples, violations=violations[:20],
